@@ -23,6 +23,7 @@ import (
 	"sync/atomic"
 	"syscall"
 	"time"
+	"unsafe"
 
 	seccomp "github.com/elastic/go-seccomp-bpf"
 	"golang.org/x/net/bpf"
@@ -41,7 +42,8 @@ type Op struct {
 type History struct {
 	Privileged bool `json:"privileged"`
 	Threads    int  `json:"threads"`
-	Extra      int  `json:"extra"` // additional OS threads in various states (C10)
+	Extra      int  `json:"extra"`                // additional OS threads in various states (C10)
+	NoSeccomp  bool `json:"no_seccomp,omitempty"` // fault: seccomp(2) answers ENOSYS (an outer filter denies it)
 	Ops        []Op `json:"ops"`
 }
 
@@ -150,6 +152,19 @@ func child(h History) {
 			fmt.Println(`{"fatal":"setresuid"}`)
 			return
 		}
+	}
+	if h.NoSeccomp {
+		// fault injection: an outer filter (all threads) answers seccomp(2) with ENOSYS, as an old
+		// kernel or a container profile would; prctl keeps working
+		runtime.LockOSThread()
+		syscall.RawSyscall6(syscall.SYS_PRCTL, 38, 1, 0, 0, 0, 0)
+		outer := []syscall.SockFilter{{Code: 0x20, K: 0}, {Code: 0x15, Jt: 0, Jf: 1, K: 317}, {Code: 0x06, K: 0x00050000 | 38}, {Code: 0x06, K: 0x7fff0000}}
+		prog := syscall.SockFprog{Len: uint16(len(outer)), Filter: &outer[0]}
+		if _, _, e := syscall.RawSyscall(317, 1, 1, uintptr(unsafe.Pointer(&prog))); e != 0 {
+			fmt.Println(`{"fatal":"outer filter"}`)
+			return
+		}
+		runtime.UnlockOSThread()
 	}
 	workers := make([]*worker, h.Threads)
 	ready := make(chan bool)
@@ -371,6 +386,9 @@ func request(h History) string {
 	if h.Privileged {
 		priv = 1
 	}
+	if h.NoSeccomp {
+		priv += 2
+	}
 	fmt.Fprintf(&b, "H %d %d %d", priv, h.Threads, len(h.Ops))
 	pol := func(kind string) string {
 		switch kind {
@@ -408,6 +426,9 @@ func genHistory(r *rand.Rand, profile string) History {
 		nops = 1 + r.Intn(2)
 	case "nnp":
 		h.Privileged = r.Intn(4) == 0
+	}
+	if (profile == "load" || profile == "tsync") && r.Intn(8) == 0 {
+		h.NoSeccomp = true
 	}
 	for i := 0; i < nops; i++ {
 		op := Op{Op: "load", Thread: r.Intn(h.Threads), NNP: r.Intn(2) == 0, Flags: flagsPool[r.Intn(4)], Policy: "valid"}
@@ -472,9 +493,17 @@ func compare(h History, obs []Obs, model string) (ok bool, note string, failing 
 			}
 			return false, where + ": result " + o.Result + ", model " + f[0], fail
 		}
+		base := 0
+		if h.NoSeccomp {
+			base = 1 // the outer filter
+		}
 		for t := 0; t < h.Threads; t++ {
 			mf, _ := strconv.Atoi(f[1+2*t])
 			mn, _ := strconv.Atoi(f[2+2*t])
+			o.Threads[t].Filters -= base
+			if h.NoSeccomp {
+				mn = o.Threads[t].NNP // the outer filter needed the bit on every thread
+			}
 			if o.Threads[t].Filters != mf || o.Threads[t].NNP != mn {
 				fail := ""
 				if o.Result == "nil" && o.Threads[t].Filters < mf {
@@ -494,6 +523,7 @@ func compare(h History, obs []Obs, model string) (ok bool, note string, failing 
 		}
 		// other runtime threads: new threads inherit from their creator, so only a lower bound is exact
 		of, _ := strconv.Atoi(f[1+2*h.Threads])
+		of += base
 		if o.NTasks > 0 && o.OthersMin < of {
 			return false, fmt.Sprintf("%s: some other thread has %d filters, model says every other thread has %d", where, o.OthersMin, of),
 				fmt.Sprintf("%s: thread-sync load returned %s but a thread of the process carries only %d filters", where, o.Result, o.OthersMin)
